@@ -1,4 +1,5 @@
 import Verif.Proofs.FlattenNF
+import Verif.Proofs.FlattenImport
 
 /-!
 # C08 — Flatten is idempotent (phase model: identity on normal forms)
@@ -24,6 +25,14 @@ theorem identity_on_normal_forms (fc : Facts) (x : Ext) (o : Opts) (fuel : Nat) 
     (h : isNF fc x o d = true) :
     flattenLocal fc x o (fuel + 1) (initial fc d) = .ok (initial fc d) :=
   Proofs.FlattenNF.flattenLocal_nf fc x o fuel d ops hops h
+
+/-- the same for the pipeline with the real import loop: a normal form has only local schema `$ref`s,
+    so a round of `importExternalReferences` finds nothing and the loop stops -/
+theorem identity_on_normal_forms_multi (fc : Facts) (x : Ext) (o : Opts) (fuel : Nat) (d : J)
+    (ops : List (String × OpRef)) (hops : opRefsByRef x (initial fc d).idx = .ok ops)
+    (h : isNF fc x o d = true) :
+    flatten fc x o (fuel + 1) (initial fc d) = .ok (initial fc d) :=
+  Proofs.FlattenImport.flatten_nf fc x o fuel d ops hops h
 
 /-- in particular the document is unchanged -/
 theorem document_unchanged (fc : Facts) (x : Ext) (o : Opts) (fuel : Nat) (d : J)
